@@ -319,6 +319,8 @@ class Gen:
         b = self.new_base(shape, st, keep, sens)
         if shape != "py" and len(shape) >= 1 and not spfmt and rng.random() < 0.3:
             self.bases[b]["inview"] = [rng.randint(0, 2), rng.randint(0, 2)]     # state = view of a larger array (pad before/after)
+        elif shape != "py" and len(shape) == 2 and not spfmt and min(shape) >= 2 and rng.random() < 0.5:
+            self.bases[b]["lay"] = "F"       # Fortran-ordered array: finite_difference visits its entries in memory order
         if spfmt:
             # a sparse-matrix source: a non-empty set of stored positions (explicit zeros allowed), zero elsewhere
             pos = rng.sample(range(ln), rng.randint(1, ln))
@@ -667,6 +669,9 @@ def _build(spec):
             big[p0:p0 + st.size] = st.ravel()
             st = big[p0:p0 + st.size].reshape(st.shape)          # a C-contiguous view that does not own its data
             bigs[i] = big
+        if st is not None and isinstance(st, np.ndarray) and st.ndim >= 2 and b.get("lay") == "F":
+            # Fortran-ordered state (same logical array): which entry is perturbed / looked up must go by the LOGICAL index
+            st = np.asfortranarray(st)
         if st is not None and b.get("spfmt"):
             import scipy.sparse as sp
             nc = b["shape"][1]
@@ -1161,6 +1166,9 @@ def oracle(spec, impl=None, finding=False):
         ents = list(range(bs[b]["len"])) if sg[s]["idx"] is None else sg[s]["idx"]
         py = bs[b]["shape"] == "py"
         order = list(bs[b]["stored"]) if bs[b].get("spfmt") else list(range(len(ents)))     # stored values of a sparse matrix
+        if bs[b].get("lay") == "F" and sg[s]["idx"] is None:
+            r_, c_ = bs[b]["shape"]
+            order = [(k % r_) * c_ + k // r_ for k in range(r_ * c_)]     # memory (column-major) order of the logical entries
         for j in order:
             e = ents[j]
             x0 = st0[b][e]
@@ -1290,6 +1298,20 @@ def compare_case(ctx, stream, spec, impl, m, judge=True):
         return False
     if impl["err"] is None and overwritten_input(spec, impl["inps"], impl["outps"]):
         ctx.branch("excluded.overwritten_input")
+        return False
+    if impl["err"] is None and any(spec["bases"][spec["sigs"][s_]["base"]].get("lay") == "F" for s_ in impl["inps"]):
+        # the model visits entries in logical order, the code in memory order (the order of the test_fn calls is not part of
+        # the property): these cases are judged by the independent rational oracle alone
+        ctx.branch("layout.fortran_input.oracle_only")
+        if stream != "malformed":
+            r = call_impl(oracle, spec, impl)
+            ctx.evaluations += 1
+            if r[0] == "err":
+                ctx.oracle_fail("oracle raised " + r[2], {"spec": spec})
+            elif r[1] and not isinstance(r[1], str):
+                ctx.oracle_fail(r[1][0], {"spec": spec, "detail": r[1][1]})
+            else:
+                ctx.distinct.add(("layoutF", json.dumps(spec, sort_keys=True, default=str)))
         return False
     if not impl.get("sp_order_ok", True):
         ctx.disagree(stream, _strip(spec), None, None, "scipy stored the values of a sparse input in an unexpected order (harness)")
